@@ -352,7 +352,7 @@ theorem rerun_cause (s s' : St) (e : Ev) (r : Nat) (y : Rec)
         · cases hs
       · cases hs
     · cases hs
-  | quiesce p r =>
+  | quiesce p r l =>
     simp only [step] at hs
     split at hs
     · simp at hs; subst hs; simp at hnew
